@@ -131,8 +131,10 @@ func (cs *cutSpec) classify(avail []int64) string {
 			return "partial"
 		}
 	case "lfo":
-		if len(avail) > 0 && len(cs.old.vers) > 0 && avail[0] == cs.old.vers[0] && contiguous(avail) &&
-			avail[len(avail)-1] <= cs.old.vers[len(cs.old.vers)-1] && avail[len(avail)-1] >= cs.new.vers[len(cs.new.vers)-1] {
+		// (a version list written by the legacy library may have holes: the intermediate states of a
+		// rollback are the leading parts of the OLD list that still contain the whole new list)
+		if len(avail) >= len(cs.new.vers) && len(avail) <= len(cs.old.vers) && len(avail) > 0 && eq(avail, cs.old.vers[:len(avail)]) &&
+			eq(cs.new.vers, cs.old.vers[:len(cs.new.vers)]) {
 			return "partial"
 		}
 	}
